@@ -5,9 +5,10 @@ import "verifharness/vh"
 
 func main() {
 	vh.Main(map[string]vh.Mode{
-		"c28": c28,
-		"c27": c27,
-		"c41": c41,
+		"c28":   c28,
+		"c27":   c27,
+		"c41":   c41,
 		"repro": repro,
+		"c28p":  c28p,
 	})
 }
